@@ -278,8 +278,8 @@ def r3(ctx, retsets):
 
 
 def r3_array_and_length(ctx, retsets):
-    """set semantics on every exit, failure exits included: a function that moves or writes elements inside a node's live
-    element array also writes the node's length on that path (an early return between a compaction and its length update
+    """set semantics on the failure exits: a function that moves or writes elements inside a node's live element array and then
+    fails has also written the node's length on that path (an early error return between a compaction and its length update
     - for instance when the shrinking realloc fails - leaves duplicates behind the new end or hides live records)"""
     pdb = ctx.pdb
 
@@ -305,11 +305,16 @@ def r3_array_and_length(ctx, retsets):
                 return ["=ew:%d" % inst.line]
             if inst.op == "store" and vf.store_field(inst) == "node_data.len":
                 return ["=lw:1"]
+            if inst.op == "call" and inst.callee in (fn.name, "trie_remove"):
+                return ["=ew:", "=lw:"]     # this node's array has been dealt with; what follows concerns another node
             return None
         outs, fl = es.count_effects(fn, pdb, cl, retsets, cap=64)
-        bad = [o for o in outs if o["counts"].get("ew") and not o["counts"].get("lw")]
+        # judged on the failure exits (the property's subject); a success exit that wrote elements without touching the length is the
+        # 'nothing had to go' case of a one-pass compaction (every element copied onto itself)
+        bad = [o for o in outs if o["counts"].get("ew") and not o["counts"].get("lw") and
+               flow.av_single(o["ret"]) is not None and flow.av_single(o["ret"]) < 0]
         ctx.check(not bad, "C18.R3", "%s:elements-and-length-change-together" % fn.name, sites[0].loc(),
-                  "every path that writes into the node's element array also writes its length" if not bad else
+                  "every failing path that wrote into the node's element array also wrote its length" if not bad else
                   "a path returns %s after the element write at line %s without updating the length (lines %s)" % (
                       flow.av_single(bad[0]["ret"]), bad[0]["counts"].get("ew"), flow.trace_lines(fn, bad[0]["trace"])[-8:]),
                   key="C18.R3:array-length:%s" % fn.name)
